@@ -85,7 +85,7 @@ func (b *base) complete() *Term {
 
 type mergeStep struct{ base }
 
-func NewMerge(n int) Step { return &mergeStep{newBase(n)} }
+func NewMerge(n int) Step        { return &mergeStep{newBase(n)} }
 func (s *mergeStep) Clone() Step { c := *s; c.base = s.cloneBase(); return &c }
 func (s *mergeStep) On(i int, n src.Notif) ([]string, *Term) {
 	switch n.K {
@@ -111,8 +111,8 @@ type concatStep struct {
 	cur int
 }
 
-func NewConcat(n int) Step { return &concatStep{base: newBase(n)} }
-func (s *concatStep) Clone() Step { c := *s; c.base = s.cloneBase(); return &c }
+func NewConcat(n int) Step            { return &concatStep{base: newBase(n)} }
+func (s *concatStep) Clone() Step     { c := *s; c.base = s.cloneBase(); return &c }
 func (s *concatStep) Live(i int) bool { return !s.done && i == s.cur && !s.ended[i] }
 func (s *concatStep) On(i int, n src.Notif) ([]string, *Term) {
 	switch n.K {
@@ -138,8 +138,10 @@ type combineStep struct {
 	slice  bool // render as slice (CombineLatestAll) instead of tuple
 }
 
-func NewCombine(n int) Step      { return &combineStep{base: newBase(n), latest: make([]*int, n)} }
-func NewCombineSlice(n int) Step { return &combineStep{base: newBase(n), latest: make([]*int, n), slice: true} }
+func NewCombine(n int) Step { return &combineStep{base: newBase(n), latest: make([]*int, n)} }
+func NewCombineSlice(n int) Step {
+	return &combineStep{base: newBase(n), latest: make([]*int, n), slice: true}
+}
 func (s *combineStep) Clone() Step {
 	c := *s
 	c.base = s.cloneBase()
@@ -240,7 +242,7 @@ type raceStep struct {
 	winner int
 }
 
-func NewRace(n int) Step { return &raceStep{base: newBase(n), winner: -1} }
+func NewRace(n int) Step        { return &raceStep{base: newBase(n), winner: -1} }
 func (s *raceStep) Clone() Step { c := *s; c.base = s.cloneBase(); return &c }
 func (s *raceStep) Live(i int) bool {
 	return !s.done && !s.ended[i] && (s.winner == -1 || s.winner == i)
@@ -273,8 +275,8 @@ type untilStep struct {
 	ready bool
 }
 
-func NewTakeUntil(n int) Step { return &untilStep{base: newBase(2), take: true} }
-func NewSkipUntil(n int) Step { return &untilStep{base: newBase(2)} }
+func NewTakeUntil(n int) Step    { return &untilStep{base: newBase(2), take: true} }
+func NewSkipUntil(n int) Step    { return &untilStep{base: newBase(2)} }
 func (s *untilStep) Clone() Step { c := *s; c.base = s.cloneBase(); return &c }
 func (s *untilStep) On(i int, n src.Notif) ([]string, *Term) {
 	if i == 1 {
@@ -343,7 +345,7 @@ func (s *bufferStep) On(i int, n src.Notif) ([]string, *Term) {
 
 type windowStep struct{ base }
 
-func NewWindowMerged(n int) Step { return &windowStep{newBase(2)} }
+func NewWindowMerged(n int) Step  { return &windowStep{newBase(2)} }
 func (s *windowStep) Clone() Step { c := *s; c.base = s.cloneBase(); return &c }
 func (s *windowStep) On(i int, n src.Notif) ([]string, *Term) {
 	switch {
@@ -367,7 +369,7 @@ type sampleStep struct {
 	has  bool
 }
 
-func NewSampleWhen(n int) Step { return &sampleStep{base: newBase(2)} }
+func NewSampleWhen(n int) Step    { return &sampleStep{base: newBase(2)} }
 func (s *sampleStep) Clone() Step { c := *s; c.base = s.cloneBase(); return &c }
 func (s *sampleStep) On(i int, n src.Notif) ([]string, *Term) {
 	switch {
@@ -397,7 +399,7 @@ type throttleStep struct {
 	open bool
 }
 
-func NewThrottleWhen(n int) Step { return &throttleStep{base: newBase(2)} }
+func NewThrottleWhen(n int) Step    { return &throttleStep{base: newBase(2)} }
 func (s *throttleStep) Clone() Step { c := *s; c.base = s.cloneBase(); return &c }
 func (s *throttleStep) On(i int, n src.Notif) ([]string, *Term) {
 	switch {
